@@ -139,7 +139,28 @@ func RuleF7(c *Ctx) {
 	} else {
 		c.Saw(core.FnName(fn))
 		nw := c.f7one(fn, "sha256.New()", staticIs("crypto/sha256", "", "New"))
-		w := c.f7one(fn, "digest.Write(label)", invokeIs("Write"))
+		// digest.Write(label), or the same through io.WriteString(digest, label)
+		var w ssa.CallInstruction
+		var wHash, wData ssa.Value
+		if ws := findCalls(fn, staticIs("io", "", "WriteString")); len(ws) == 1 && len(findCalls(fn, invokeIs("Write"))) == 0 {
+			w = c.f7one(fn, "digest.Write(label)", staticIs("io", "", "WriteString"))
+			if w != nil {
+				wHash, wData = w.Common().Args[0], w.Common().Args[1]
+				for d := 0; d < 3; d++ {
+					switch x := wHash.(type) {
+					case *ssa.MakeInterface:
+						wHash = x.X
+					case *ssa.ChangeInterface:
+						wHash = x.X
+					}
+				}
+			}
+		} else {
+			w = c.f7one(fn, "digest.Write(label)", invokeIs("Write"))
+			if w != nil {
+				wHash, wData = w.Common().Value, w.Common().Args[0]
+			}
+		}
 		// the pending buffer: bytes.NewBuffer over an empty slice, or a zero-value bytes.Buffer that nothing writes before it is stored
 		var nbVal ssa.Value
 		empty := false
@@ -179,6 +200,10 @@ func RuleF7(c *Ctx) {
 					if _, isDbg := r.(*ssa.DebugRef); isDbg {
 						continue
 					}
+					// reserving capacity leaves the buffer empty
+					if gc, isCall := r.(*ssa.Call); isCall && core.IsMethod(core.Callee(gc.Common()), "bytes", "Buffer", "Grow") {
+						continue
+					}
 					empty = false
 				}
 			}
@@ -188,8 +213,8 @@ func RuleF7(c *Ctx) {
 		}
 		if nw != nil && w != nil && nbVal != nil {
 			// the Write is on the hash object: the sha256.New() value itself, or the state field it was stored into
-			onHash := w.Common().Value == nw.(ssa.Value)
-			if u, isLoad := w.Common().Value.(*ssa.UnOp); isLoad && u.Op == token.MUL {
+			onHash := wHash == nw.(ssa.Value)
+			if u, isLoad := wHash.(*ssa.UnOp); isLoad && u.Op == token.MUL {
 				if fa, isFA := u.X.(*ssa.FieldAddr); isFA && fieldNameOf(fa) == "state" && strings.HasSuffix(fa.X.Type().String(), "common.Transcript") {
 					for _, st := range allStoresToField(fn, fa.X, "state") {
 						if st.Val == nw.(ssa.Value) && core.Precedes(fn, st, w) {
@@ -198,7 +223,7 @@ func RuleF7(c *Ctx) {
 					}
 				}
 			}
-			ok := onHash && core.FlowsTo(fn.Params[0], w.Common().Args[0], nil)
+			ok := onHash && core.FlowsTo(fn.Params[0], wData, nil)
 			var stState bool
 			stBuff := true
 			core.AllInstrs(fn, func(i ssa.Instruction) {
